@@ -1073,6 +1073,17 @@ class Executor:
         if trait == "Clone" and meth == "clone":
             used("Clone::clone (Copy types)")
             return [Outcome(st, deref(args[0]))]
+        # ---- core::mem::size_of::<T>() for the types that occur here
+        if meth == "size_of" and not args:
+            m = re.search(r"size_of::<(.+)>$", raw.strip())
+            if m:
+                t = self.resolve_ty(m.group(1), subst)
+                h = ty_head_args(t)[0]
+                if h in self.enums:
+                    used("core::mem::size_of (fieldless enum: 0 for a single variant, else 1)")
+                    return [Outcome(st, Int(0 if len(self.enums[h]) == 1 else (1 if len(self.enums[h]) <= 256 else 2), "usize"))]
+                if t == "f64":
+                    return [Outcome(st, Int(8, "usize"))]
         # ---- core::iter::once(x)
         if meth == "once" and len(args) == 1 and ("iter" in raw):
             used("core::iter::once")
